@@ -16,6 +16,35 @@ package scheduler
 //@   lockeffect bq.lock -1
 
 // ---------------------------------------------------------------------------
+// Size-class selection protocol (C07) and in-flight deduplication (C03)
+
+// Every Execute request that got a selector from the action router gives it
+// exactly one of Select / Abandoned (selcalls is the per-call count).
+//@ func (*InMemoryBuildQueue).Execute
+//@   props C07 C03
+//@   ensures selector-gets-exactly-one-call:
+//@             initialSizeClassSelector != nil ==> selcalls(initialSizeClassSelector) == 1
+//@   at call newOperation#2 assert only-cacheable-actions-are-registered:
+//@             (actionDigest in bq.inFlightDeduplicationMap) ==
+//@               (!action.DoNotCache || old(actionDigest in bq.inFlightDeduplicationMap))
+
+// Completing a task may only remove the task's own entry from the in-flight
+// deduplication map, and only when the task is final (not on the retry on the
+// largest size class).
+//@ func (*task).complete
+//@   props C03
+//@   ensures entries-of-other-tasks-untouched:
+//@             forall d digest.Digest ::
+//@               old(d in bq.inFlightDeduplicationMap) && old(bq.inFlightDeduplicationMap[d]) != t ==>
+//@               (d in bq.inFlightDeduplicationMap) && bq.inFlightDeduplicationMap[d] == old(bq.inFlightDeduplicationMap[d])
+//@   ensures entry-kept-while-not-final:
+//@             t.executeResponse == nil ==>
+//@               (forall d digest.Digest :: (d in bq.inFlightDeduplicationMap) == old(d in bq.inFlightDeduplicationMap) &&
+//@                 bq.inFlightDeduplicationMap[d] == old(bq.inFlightDeduplicationMap[d]))
+//@   ensures nothing-inserted:
+//@             forall d digest.Digest :: (d in bq.inFlightDeduplicationMap) ==> old(d in bq.inFlightDeduplicationMap)
+
+// ---------------------------------------------------------------------------
 // Documented scheduling order (C04)
 
 // Queued operations of one invocation: priority first (lower value first),
